@@ -39,6 +39,7 @@ def shards(tier, seed):
 
 
 def cases(shard, rnd):
+    wire.AMBIG_L = True
     if shard['what'] == 'magic':
         for idx in shard['indexes']:
             yield from wire.magic_method_frames(rnd, refspec.METHODS[idx])
@@ -74,6 +75,9 @@ def cases(shard, rnd):
             yield wire.protocol_header(rnd)
 
 
+_L_READINGS = set()     # readings of 'L' >= 2^63 seen in this process
+
+
 def weq(exp, got):
     """Typed equality with the TsApprox / MustRefuse extensions."""
     if isinstance(exp, wire.TsApprox):
@@ -85,6 +89,16 @@ def weq(exp, got):
             <= exp.tol_us
     if isinstance(exp, wire.MustRefuse):
         return False
+    if isinstance(exp, wire.LAmbig):
+        if type(got) is not int:
+            return False
+        if got == exp.raw:
+            _L_READINGS.add('unsigned')
+        elif got == exp.raw - 2**64:
+            _L_READINGS.add('signed')
+        else:
+            return False
+        return len(_L_READINGS) == 1
     if isinstance(exp, dict):
         return type(got) is dict and set(exp) == set(got) and \
             all(weq(exp[k], got[k]) for k in exp)
@@ -108,6 +122,11 @@ def wdiff(exp, got, path=''):
                 return wdiff(a, b, path + '[%d]' % i)
     if isinstance(exp, wire.TsApprox):
         return ('timestamp-ms', '%s expected %r got %r' % (path, exp, got))
+    if isinstance(exp, wire.LAmbig):
+        return ('L-reading-inconsistent' if len(_L_READINGS) > 1
+                else 'L-value', '%s expected %r got %r (readings of tag L '
+                'with the top bit set seen in this process: %s)'
+                % (path, exp, got, sorted(_L_READINGS)))
     if type(exp) is not type(got):
         return ('%s->%s' % (diff.bucket(exp), type(got).__name__),
                 '%s expected %r got %r' % (path, exp, got))
@@ -119,6 +138,8 @@ def _strip_ts(v):
     cross-check with refcodec (which computes ms timestamps exactly)."""
     if isinstance(v, wire.TsApprox):
         return v.dt
+    if isinstance(v, wire.LAmbig):
+        return v.raw - 2**64            # refcodec reads 'L' signed
     if isinstance(v, dict):
         return {k: _strip_ts(x) for k, x in v.items()}
     if isinstance(v, list):
@@ -148,7 +169,7 @@ def _crosscheck(fr):
                 % refcodec.why_differs(_strip_ts(fr.expected), ref.values))
 
 
-def run_case(fr, rec):
+def run_case(fr, rec, second=False):
     if isinstance(fr, dict):                 # replayed case
         common.replay_history(fr.get('prefix'))
         fr = _from_replay(fr)
@@ -231,6 +252,18 @@ def run_case(fr, rec):
                           observed=gv_, expected=repr(e)[:600])
             return
     rec.count('accepted_ok')
+    if not second and kind in ('method', 'header') and \
+            rec.evaluations % 2 == 0:
+        # the consumer owns what it was handed: it changes the decoded
+        # tables / arrays in place (at every nesting level), then the same
+        # bytes arrive again and must decode to what they say
+        changed = False
+        for x in got.values():
+            changed |= common.mutate_deep(x)
+        if changed:
+            rec.count('decoded_then_mutated_then_decoded_again')
+            return run_case(fr, common.SuffixRec(
+                rec, ':after-consumer-changed-first-result'), second=True)
     _note_forms(fr, exp, rec)
     if rec.evaluations % 293 == 0:
         rec.sample({'kind': fr.kind, 'name': fr.name,
